@@ -110,6 +110,9 @@ pub fn parallel_parse(
     let collector_thread = thread::spawn(move || {
         let mut crate_parsed_data: BTreeMap<CrateName, ParsedData> = BTreeMap::new();
 
+        #[cfg(feature = "verif-hooks")]
+        let rx = verif_reorder(rx);
+
         for result in rx {
             let parsed_data = result?;
             let crate_name = parsed_data.crate_name.clone();
@@ -144,4 +147,62 @@ pub fn parallel_parse(
 
     drop(tx);
     collector_thread.join().unwrap()
+}
+
+/// Verification hook: buffer every per-file result, put the buffer into a canonical order and
+/// apply the permutation named by `TYPESHARE_VERIF_ORDER` (comma separated indices, or
+/// `seed:<n>` for a pseudo random shuffle, or `rev`) before the collector folds them. Without
+/// the variable the results are handed on in arrival order.
+#[cfg(feature = "verif-hooks")]
+fn verif_reorder(
+    rx: crossbeam::channel::Receiver<anyhow::Result<ParsedData>>,
+) -> Vec<anyhow::Result<ParsedData>> {
+    let mut buffered: Vec<anyhow::Result<ParsedData>> = rx.into_iter().collect();
+    let Ok(order) = std::env::var("TYPESHARE_VERIF_ORDER") else {
+        return buffered;
+    };
+    let key = |r: &anyhow::Result<ParsedData>| match r {
+        Ok(d) => {
+            let mut names: Vec<String> = d
+                .structs
+                .iter()
+                .map(|s| s.id.original.clone())
+                .chain(d.enums.iter().map(|e| e.shared().id.original.clone()))
+                .chain(d.aliases.iter().map(|a| a.id.original.clone()))
+                .chain(d.consts.iter().map(|c| c.id.original.clone()))
+                .collect();
+            names.sort();
+            (0, d.crate_name.to_string(), names, d.errors.len())
+        }
+        Err(_) => (1, String::new(), Vec::new(), 0),
+    };
+    buffered.sort_by_key(key);
+    let n = buffered.len();
+    let perm: Vec<usize> = if order == "rev" {
+        (0..n).rev().collect()
+    } else if let Some(seed) = order.strip_prefix("seed:") {
+        let mut state: u64 = seed.parse().unwrap_or(0) ^ 0x9E37_79B9_7F4A_7C15;
+        let mut perm: Vec<usize> = (0..n).collect();
+        for i in (1..n).rev() {
+            state = state
+                .wrapping_mul(6364136223846793005)
+                .wrapping_add(1442695040888963407);
+            let j = ((state >> 33) as usize) % (i + 1);
+            perm.swap(i, j);
+        }
+        perm
+    } else {
+        let mut perm: Vec<usize> = order
+            .split(',')
+            .filter_map(|s| s.trim().parse().ok())
+            .filter(|i| *i < n)
+            .collect();
+        let mut seen = vec![false; n];
+        perm.retain(|i| !std::mem::replace(&mut seen[*i], true));
+        perm.extend((0..n).filter(|i| !seen[*i]));
+        perm
+    };
+    let mut slots: Vec<Option<anyhow::Result<ParsedData>>> =
+        buffered.into_iter().map(Some).collect();
+    perm.into_iter().filter_map(|i| slots[i].take()).collect()
 }
